@@ -26,6 +26,7 @@ BOUNDS = {
 }
 
 BIG = [10 ** 6, 2 ** 40]
+CONSTS40 = ', '.join(str(i) for i in range(40))
 
 
 class Count:
@@ -173,6 +174,14 @@ DRIVERS = [
     ('const-lambda-call', 'q = v => None; q(1); q(2); w = v => "s"; w(0)', None, False),
     ('const-lambda-filter', 'filter(l, v => True) + filter(l, v => False)', None, False),
     ('filter-budget', 'l | filter(v => v > 1)', None, False),
+    ('long-list-40', '[%s]' % CONSTS40, None, False),
+    ('long-args-40', 'list(%s)' % CONSTS40, None, False),
+    ('long-host-args', 't(1); f(%s); t(2)' % CONSTS40, None, False),
+    ('long-dict-40', '{' + ', '.join('"k%d": %d' % (i, i) for i in range(40)) + '}', None, False),
+    ('long-strings-40', '[' + ', '.join('"s%d"' % i for i in range(40)) + '] | len', None, False),
+    ('long-program', '; '.join('v%d = %d' % (i, i) for i in range(40)) + '; v39', None, False),
+    ('deep-nesting', '[' * 12 + '1' + ']' * 12, None, False),
+    ('many-params', 'q = (a, b, c, d, e, g, h, i) => a + i; q(1, 2, 3, 4, 5, 6, 7, 8)', None, False),
     ('empty', '', None, False),
     ('comment', '# nothing', None, False),
     ('blank-lines', '\n\nt(1)\n\n', None, False),
